@@ -3,6 +3,7 @@ package props
 import (
 	"fmt"
 	"go/token"
+	"go/types"
 
 	"elaverif/ssau"
 
@@ -16,6 +17,39 @@ func init() {
 func runC08(c *Ctx) {
 	c.R.Rule("G2-root", "bloom.CheckMerkleBlock returns success only through the true arm of an equality of the single remaining stack hash with the merkle root of the block header carried by the message; every transaction id it reports was popped from the message's hash list under a set flag bit")
 	c.R.Rule("R-levels", "merkleNodes.calcBranchRoute contributes one route entry for every level 0..treeDepth(numTxs)-1 (no level is skipped), so the single-transaction branch has exactly one sibling per level for auxpow.GetMerkleRoot")
+	c.R.Rule("G-dup", "bloom.MakeMerkleParent returns a parent only when its two children were compared by value and found different (left.IsEqual(*right) or an equivalent value comparison; a comparison of the two pointers is not one): a merkle block that repeats the self-paired tail of the tree (CVE-2012-2459) is refused")
+	if mp := c.fn("elanet/bloom", "", "MakeMerkleParent"); mp != nil {
+		isChild := func(name string) func(ssa.Value) bool {
+			return func(v ssa.Value) bool {
+				return ssau.DependsOn(v, func(x ssa.Value) bool { return paramNamed(x, name) })
+			}
+		}
+		c.GuardSuccess("G-dup", "MakeMerkleParent|children compared by value", mp, "left and right hold different hashes", func(i *ssa.If) (bool, bool) {
+			x, neg := ssau.StripNot(i.Cond)
+			// left.IsEqual(*right) / bytes.Equal(left[:], right[:]): required arm = not equal
+			if cl, ok := x.(*ssa.Call); ok {
+				o := ssau.CalleeObj(&cl.Call)
+				if o != nil && (o.Name() == "IsEqual" || o.Name() == "Equal") && len(cl.Call.Args) == 2 {
+					a, b := cl.Call.Args[0], cl.Call.Args[1]
+					if (isChild("left")(a) && isChild("right")(b)) || (isChild("left")(b) && isChild("right")(a)) {
+						return true, neg
+					}
+				}
+			}
+			// *left == *right on the array values (not on the pointers)
+			if bo, ok := x.(*ssa.BinOp); ok && (bo.Op == token.EQL || bo.Op == token.NEQ) {
+				if _, isArr := bo.X.Type().Underlying().(*types.Array); isArr {
+					if (isChild("left")(bo.X) && isChild("right")(bo.Y)) || (isChild("left")(bo.Y) && isChild("right")(bo.X)) {
+						return true, (bo.Op == token.NEQ) != neg
+					}
+				}
+			}
+			return false, false
+		}, G1Opt{IgnoreExit: func(ret *ssa.Return) bool {
+			// the "right child absent" arm hashes left with itself by construction
+			return false
+		}, Base: rightNilCut(mp)})
+	}
 	const pk = "elanet/bloom"
 	if f := c.fn(pk, "", "CheckMerkleBlock"); f != nil {
 		isRoot := func(v ssa.Value) bool {
@@ -98,4 +132,18 @@ func runC08(c *Ctx) {
 	if f := c.fn(pk, "", "GetTxMerkleBranch"); f != nil {
 		c.R.Info("R-levels", "GetTxMerkleBranch", c.pos(f.Pos()), "shape of the partial tree and index derivation are value-level and not decided")
 	}
+}
+
+// rightNilCut removes the arms on which a child is nil: with the right child absent the node is paired with itself on
+// purpose and no comparison is due; with the left child absent no parent is produced. What remains are the
+// executions with two children, on which the value comparison is required.
+func rightNilCut(fn *ssa.Function) *ssau.Cut {
+	cut := ssau.NewCut()
+	for _, i := range ssau.Ifs(fn) {
+		if v, trueIsNil, ok := ssau.NilTest(i.Cond); ok && (paramNamed(v, "right") || paramNamed(v, "left")) {
+			// only when this test is not part of the compound dup guard (left != nil && right != nil && ...)
+			cut.AddEdge(i.Block(), ssau.Arm(i, trueIsNil))
+		}
+	}
+	return cut
 }
